@@ -12,6 +12,9 @@
 (*      for the server-name lengths that put u on the boundaries of the    *)
 (*      policy (Thorough = FALSE) or takes every length 1..253 (TRUE).     *)
 (*      Every terminal state is emitted as a scenario for the harness.     *)
+(*  (3) from the corner lengths of (2) the same UConn marshals again:      *)
+(*      SetSNI to a shorter/longer name, or the second ClientHello after   *)
+(*      a HelloRetryRequest naming a listed group without a share.         *)
 (***************************************************************************)
 EXTENDS Parrots, Padding
 
@@ -66,7 +69,7 @@ Tickets(id) == IF HasTicket(id) THEN {0, TicketLen} ELSE {0}
 Targets == {254, 255, 256, 257} \cup 506..513
 SNILens == 1..253
 
-Idle == [mode |-> "idle", id |-> "", alpn |-> "", ticket |-> 0, sni |-> 0]
+Idle == [mode |-> "idle", id |-> "", alpn |-> "", ticket |-> 0, sni |-> 0, re |-> "", arg |-> 0, u1 |-> 0, pad1 |-> 0]
 Init == PInit /\ scn = Idle /\ todo = <<>>
 
 \* ---------- (1) abstract hellos ----------
@@ -80,7 +83,7 @@ AbsRefp == scn.mode = "abstract" /\ Refingerprint /\ UNCHANGED <<scn, todo>>
 \* ---------- (2) parrots ----------
 ParBegin == \E id \in ScnIDs, v \in AlpnVariants : \E t \in Tickets(id) :
               /\ Begin(HeaderLen(id), PBoring)
-              /\ scn' = [mode |-> "parrot", id |-> id, alpn |-> v, ticket |-> t, sni |-> 0]
+              /\ scn' = [Idle EXCEPT !.mode = "parrot", !.id = id, !.alpn = v, !.ticket = t]
               /\ todo' = ExtLens(id, v, t)
 ParAdd == scn.mode = "parrot" /\ todo # <<>> /\ AddExtension(Head(todo)) /\ todo' = Tail(todo) /\ UNCHANGED scn
 ParSNI == /\ scn.mode = "parrot" /\ todo = <<>> /\ scn.sni = 0
@@ -90,7 +93,29 @@ ParSNI == /\ scn.mode = "parrot" /\ todo = <<>> /\ scn.sni = 0
           /\ UNCHANGED todo
 ParPad == scn.mode = "parrot" /\ scn.sni # 0 /\ ApplyPadding /\ UNCHANGED <<scn, todo>>
 
-Next == AbsBegin \/ AbsGrow \/ AbsPad \/ AbsCapture \/ AbsRefp \/ ParBegin \/ ParAdd \/ ParSNI \/ ParPad
+\* ---------- (3) the same UConn marshals again: SetSNI to another length / the ClientHello after a HelloRetryRequest ----------
+\* from which first hellos: the policy's corner lengths (and, Thorough, every 8th server-name length)
+ReFrom == scn.mode = "parrot" /\ Padded /\ scn.re = "" /\ scn.alpn = "spec" /\ scn.ticket = 0
+          /\ (u \in {256, 507, 511, 512} \/ (Thorough /\ (u \in Targets \/ scn.sni % 8 = 0)))
+ReLens(L) == {L - 40, L - 5, L + 5} \cap SNILens
+ParReSNI == /\ ReFrom
+            /\ \E L2 \in ReLens(scn.sni) :
+                 /\ Reassemble(L2 - scn.sni)
+                 /\ scn' = [scn EXCEPT !.re = "sni", !.arg = L2, !.u1 = u, !.pad1 = pad]
+            /\ UNCHANGED todo
+\* groups a HelloRetryRequest of the in-tree server can name: listed in supported_groups, no share offered
+ServerGroups == {23, 24, 25, 29}
+Is13(id) == 772 \in SVList(Specs[id]) /\ HasExt(Specs[id], "KeyShareExtension")
+HRRGroups(id) == IF Is13(id) THEN (Groups(Specs[id]) \ ShareGroups(Specs[id])) \cap ServerGroups ELSE {}
+KeyShareLen(id) == ExtWireLen(TheExt(Specs[id], "KeyShareExtension"), 0)
+HRRDelta(id, g) == (4 + 2 + 4 + ShareSize(g)) - KeyShareLen(id)       \* key_share shrinks/grows to the one requested share
+ParHRR == /\ ReFrom
+          /\ \E g \in HRRGroups(scn.id) :
+               /\ Reassemble(HRRDelta(scn.id, g))
+               /\ scn' = [scn EXCEPT !.re = "hrr", !.arg = g, !.u1 = u, !.pad1 = pad]
+          /\ UNCHANGED todo
+
+Next == AbsBegin \/ AbsGrow \/ AbsPad \/ AbsCapture \/ AbsRefp \/ ParBegin \/ ParAdd \/ ParSNI \/ ParPad \/ ParReSNI \/ ParHRR
 
 \* ---------- invariants ----------
 \* the independent statement in TLSWire agrees with this module
@@ -98,12 +123,14 @@ AgreesWithTLSWire == Padded /\ policy.kind = "boring" /\ cap = 0 /\ scn.mode = "
 Inv == PolicyInvariants /\ AgreesWithTLSWire
 
 \* ---------- scenario emission ----------
-Emit == (Padded /\ scn.mode = "parrot") =>
+Emit == (Padded /\ scn.mode = "parrot" /\ scn.re = "") =>
           PrintT(<<"SCN", ToJson([id |-> scn.id, alpn |-> scn.alpn, ticket |-> scn.ticket, sni |-> scn.sni, u |-> u, pad |-> pad])>>)
+EmitRe == (Padded /\ scn.mode = "parrot" /\ scn.re # "") =>
+          PrintT(<<"RESCN", ToJson([id |-> scn.id, sni |-> scn.sni, re |-> scn.re, arg |-> scn.arg, u1 |-> scn.u1, pad1 |-> scn.pad1, u |-> u, pad |-> pad])>>)
 \* which abstract lengths were padded (vacuity evidence for (1))
 EmitAbs == (Padded /\ scn.mode = "abstract" /\ policy.kind = "boring" /\ cap = 0 /\ u \in {0, 255, 256, 507, 508, 511, 512, MaxU}) =>
           PrintT(<<"ABS", <<u, pad>>>>)
 Unmodelled == BoringIDs \ ScnIDs
 EmitMeta == (phase = "idle") => PrintT(<<"META", ToJson([boring |-> BoringIDs, unmodelled |-> Unmodelled])>>)
-Constr == Emit /\ EmitAbs /\ EmitMeta
+Constr == Emit /\ EmitRe /\ EmitAbs /\ EmitMeta
 =============================================================================
